@@ -260,6 +260,7 @@ void compression_free(xmpp_conn_t *conn)
         inflateEnd(&comp->decompression.stream);
         strophe_free_and_null(conn->ctx, comp->decompression.buffer);
     }
+    strophe_free_and_null(conn->ctx, conn->compression.state);
 }
 
 void compression_handle_feature_children(xmpp_conn_t *conn, const char *text)
